@@ -8,3 +8,28 @@ package types
 //@   ensures[C16] result != nil && big(result) >= 0
 //@   loop 1 invariant[C16] (i == 0 || i == 2 || i == 4 || i == 6) && len(b) == 32 && r != nil && big(r) >= 0
 //@   nopanic[C16]
+
+// ---- transaction_signing.go (C12) -----------------------------------------------------------
+// recoverPlain yields an address only for in-range signature values; with the homestead flag
+// only for a low S.
+//@ func recoverPlain
+//@   requires R != nil && S != nil && Vb != nil
+//@   ensures[C12] @range err == nil ==> 1 <= big(R) && big(R) < SECP_N && 1 <= big(S) && big(S) < SECP_N
+//@   ensures[C12] @lowS err == nil && homestead ==> big(S) <= SECP_HALFN
+//@   nopanic[C12]
+
+// Replay-protected transactions are attributed only under their own chain id and only with a
+// non-malleable (low S) signature.
+//@ func EIP155Signer.Sender
+//@   requires tx != nil && tx.data.V != nil && tx.data.R != nil && tx.data.S != nil && s.chainId != nil && s.chainIdMul != nil
+//@   ensures[C12] @lowS err == nil ==> big(tx.data.S) <= SECP_HALFN
+//@   ensures[C12] @range err == nil ==> 1 <= big(tx.data.R) && big(tx.data.R) < SECP_N && 1 <= big(tx.data.S) && big(tx.data.S) < SECP_N
+
+//@ func HomesteadSigner.Sender
+//@   requires tx != nil && tx.data.V != nil && tx.data.R != nil && tx.data.S != nil
+//@   ensures[C12] @lowS err == nil ==> big(tx.data.S) <= SECP_HALFN
+//@   ensures[C12] @range err == nil ==> 1 <= big(tx.data.R) && big(tx.data.R) < SECP_N && 1 <= big(tx.data.S) && big(tx.data.S) < SECP_N
+
+//@ func FrontierSigner.Sender
+//@   requires tx != nil && tx.data.V != nil && tx.data.R != nil && tx.data.S != nil
+//@   ensures[C12] @range err == nil ==> 1 <= big(tx.data.R) && big(tx.data.R) < SECP_N && 1 <= big(tx.data.S) && big(tx.data.S) < SECP_N
